@@ -4,7 +4,7 @@ use crate::dynpeer::{with_peer, DynVal};
 use crate::reader::RCfg;
 use crate::seam::Ctx;
 use crate::types::{Ty, Val};
-use serde::Deserialize;
+
 
 pub const R1: &str = "R1:toml::from_str";
 pub const R2: &str = "R2:toml_edit::de::from_str";
